@@ -239,11 +239,7 @@ func TestVerifC13MergeChart(t *testing.T) {
 			}
 		}
 		// merge every day that is not missing
-		for d := 0; d < ndays; d++ {
-			if d == missing {
-				continue
-			}
-			day := day0.AddDate(0, 0, d).Format("2006-01-02")
+		mergeAndVerify := func(day string) {
 			rec := httptest.NewRecorder()
 			handleMerge(env.api).ServeHTTP(rec, httptest.NewRequest("GET", "/merge/?date="+day, nil))
 			if rec.Code != 200 {
@@ -279,6 +275,71 @@ func TestVerifC13MergeChart(t *testing.T) {
 				if got[i] != want[i] {
 					t.Fatalf("merge %s: merged records differ from the stored reports", day)
 				}
+			}
+		}
+		for d := 0; d < ndays; d++ {
+			if d != missing {
+				mergeAndVerify(day0.AddDate(0, 0, d).Format("2006-01-02"))
+			}
+		}
+		// The set of reports stored for a day can change between two merges of that day (the merge job runs daily
+		// over the last week): a report arrives, a report is uploaded again under the same name with other
+		// contents, an object is deleted. Merging again must describe the new set, not a mixture.
+		remerged := ""
+		if rapid.IntRange(0, 2).Draw(t, "remerge") == 0 {
+			var days []string
+			for day := range stored {
+				if len(stored[day]) > 0 {
+					days = append(days, day)
+				}
+			}
+			sort.Strings(days)
+			if len(days) > 0 {
+				day := days[rapid.IntRange(0, len(days)-1).Draw(t, "remergeDay")]
+				i := rapid.IntRange(0, len(stored[day])-1).Draw(t, "remergeReport")
+				obj := fmt.Sprintf("%s/%g.json", day, stored[day][i].X)
+				switch remerged = rapid.SampledFrom([]string{"smaller", "deleted", "added"}).Draw(t, "remergeKind"); remerged {
+				case "smaller":
+					small := telemetry.Report{Week: stored[day][i].Week, LastWeek: stored[day][i].LastWeek, X: stored[day][i].X, Config: stored[day][i].Config}
+					w, err := env.api.Upload.Object(obj).NewWriter(ctx)
+					if err != nil {
+						t.Fatal(err)
+					}
+					json.NewEncoder(w).Encode(small)
+					w.Close()
+					var back telemetry.Report
+					b, _ := json.Marshal(small)
+					json.Unmarshal(b, &back)
+					stored[day][i] = back
+				case "deleted":
+					if err := os.Remove(filepath.Join(env.root, "uploaded", obj)); err != nil {
+						t.Fatal(err)
+					}
+					stored[day] = append(stored[day][:i:i], stored[day][i+1:]...)
+					total--
+				case "added":
+					r := c13Report(t, ucfg, day, xs)
+					dup := false
+					for _, o := range stored[day] {
+						if o.X == r.X {
+							dup = true
+						}
+					}
+					if !dup {
+						w, err := env.api.Upload.Object(fmt.Sprintf("%s/%g.json", day, r.X)).NewWriter(ctx)
+						if err != nil {
+							t.Fatal(err)
+						}
+						json.NewEncoder(w).Encode(r)
+						w.Close()
+						var back telemetry.Report
+						b, _ := json.Marshal(r)
+						json.Unmarshal(b, &back)
+						stored[day] = append(stored[day], back)
+						total++
+					}
+				}
+				mergeAndVerify(day)
 			}
 		}
 		// chart a sub-range
@@ -372,6 +433,6 @@ func TestVerifC13MergeChart(t *testing.T) {
 			t.Fatalf("%s: chart output depends on the order of the reports", desc)
 		}
 		vstats.Case(desc, dupX || bigLine || hi > lo, fmt.Sprintf("bigLine:%v", bigLine), fmt.Sprintf("dupX:%v", dupX), fmt.Sprintf("multiDay:%v", hi > lo),
-			fmt.Sprintf("crossYear:%v", start[:4] != end[:4]), fmt.Sprintf("longRange:%v", hi-lo > 300))
+			fmt.Sprintf("crossYear:%v", start[:4] != end[:4]), fmt.Sprintf("longRange:%v", hi-lo > 300), "remerged:"+remerged)
 	})
 }
